@@ -10,6 +10,7 @@ MCWeights == {1}
 MCUBatches == {<< <<<<3, 3>>, 1>> >>}
 MCWBatches == {<< <<<<3, 3>>, 2>> >>}
 MCOps == {"FromArrays", "GetItem", "DropD"}
+MCScaleArgs == {<<2, 1>>}
 MCRetCands == {NoneRet}
 MCProjAxes == {<<1>>}
 MCMergeArgs == {<<2, 1>>}
